@@ -1050,17 +1050,29 @@ static int vnadata_save_common(vnadata_t *vdp, FILE *fp, const char *filename,
      */
     {
 	bool changed = false;
+	bool resolved[vdip->vdi_format_count + 1];
 
 	for (int i = 0; i < vdip->vdi_format_count; ++i) {
 	    vnadata_format_descriptor_t *vfdp = &vdip->vdi_format_vector[i];
 
+	    resolved[i] = false;
 	    if (vfdp->vfd_parameter == VPT_UNDEF) {
 		vfdp->vfd_parameter = type;
+		resolved[i] = true;
 		changed = true;
 	    }
 	}
 	if (changed) {
 	    if (_vnadata_update_format_string(vdip) == -1) {
+		/*
+		 * Undo, so that the descriptors keep matching the
+		 * format string and a repeated save resolves them again.
+		 */
+		for (int i = 0; i < vdip->vdi_format_count; ++i) {
+		    if (resolved[i]) {
+			vdip->vdi_format_vector[i].vfd_parameter = VPT_UNDEF;
+		    }
+		}
 		goto out;
 	    }
 	}
